@@ -132,6 +132,8 @@ class Tracer(SymEval):
                 return ("enumerate", self.iter_desc(it["recv"], env))
             if m == "rev":
                 return ("rev", self.iter_desc(it["recv"], env))
+            if m in ("copied", "cloned") and "Option" not in (it.get("def") or ""):
+                return self.iter_desc(it["recv"], env)      # same elements by value
             if m in ("map", "filter", "filter_map", "zip", "skip", "step_by", "take", "flat_map"):
                 inner = self.iter_desc(it["recv"], env)
                 extra = [self.eval(a, env) if a.get("k") != "closure" else ("closure", a, dict(env)) for a in it["args"]]
@@ -295,6 +297,16 @@ class Tracer(SymEval):
             is_none = key == "None"
             if is_some or is_none:
                 v = self.eval(cn["e"], env)
+                if isinstance(v, tuple) and len(v) == 3 and v[0] == "opt":
+                    def ev_arm(body, e2, g):
+                        self.guards.append(g)
+                        try:
+                            return self.eval(body, e2)
+                        finally:
+                            self.guards.pop()
+                    r = self.opt_arms(v, [(cn["pat"], n["t"]), ({"k": "wild"}, n["e"])], env, ev_arm)
+                    if r is not None:
+                        return r
                 if isinstance(v, Poly):
                     e2 = dict(env)
                     try:
@@ -428,6 +440,16 @@ class Tracer(SymEval):
         from .symx import const_key
         from .tables import pat_key
         s = self.eval(n["e"], env)
+        if isinstance(s, tuple) and len(s) == 3 and s[0] == "opt" and not any("guard" in a for a in n["arms"]):
+            def ev_arm(body, e2, g):
+                self.guards.append(g)
+                try:
+                    return self.eval(body, e2)
+                finally:
+                    self.guards.pop()
+            r = self.opt_arms(s, [(a["pat"], a["body"]) for a in n["arms"]], env, ev_arm)
+            if r is not None:
+                return r
         if const_key(s) is not None:
             return super().e_match(n, env)
         arms = []
@@ -495,7 +517,7 @@ class Tracer(SymEval):
         return app("matches", v, repr(pat_key(n["pat"])))
 
     ITER_METHODS = ("iter", "iter_mut", "into_iter", "map", "filter", "filter_map", "enumerate", "rev", "zip",
-                    "skip", "step_by", "take", "flat_map")
+                    "skip", "step_by", "take", "flat_map", "copied", "cloned")
 
     def e_mcall(self, n, env):
         if n["m"] == "next" and not n["args"] and (n.get("def") or "").endswith("Iterator::next"):
